@@ -13,6 +13,10 @@ Decided (structural clauses, all paths of the two ticket entry points):
               self and every `&mut self…` call except ensure_writable; plus persistence: Ok is reached only
               through rewrite_toc_footer -> persist_header -> sync_all.
   WMC-C25e    the only writers of TicketRef.seq_no in the crate are the two entry points (+ reviewed table).
+  MPT-C25f    callers of the ticket entry points inherit "rejection leaves no trace": in every function that calls
+              apply_ticket / apply_signed_ticket (bind_memory, ...), no store to the persisted state (Memvid.toc.*,
+              header) can be followed by that call - the ticket may still be rejected, and the store would survive
+              the rejection (and be persisted by the next ordinary commit).
 Not decided: the behaviour over histories (values), Ed25519 itself (external crate)."""
 from . import lib
 from .facts import Place, op_place
@@ -31,7 +35,32 @@ VERIFY_PARAM_FIELDS = [  # argument index of verify_ticket_signature -> SignedTi
     (1, 'memory_id'), (2, 'issuer'), (3, 'seq_no'), (4, 'expires_in_secs'), (5, 'capacity_bytes'), (6, 'signature')]
 
 
+def _callers_leave_no_trace(ctx, F):
+    ctx.rule('MPT-C25f', 'callers of apply_ticket/apply_signed_ticket do not store persisted state before the (fallible) ticket call')
+    n = 0
+    for fn in sorted(F.fns.values(), key=lambda x: x.path):
+        if fn.key in ENTRY or fn.is_closure:
+            continue
+        calls = [c for c in fn.calls() if c.is_(tuple(ENTRY))]
+        if not calls:
+            continue
+        n += 1
+        ctx.touch(fn, len(fn.blocks))
+        stores = [st for st in lib.field_stores(fn) if st['lhs'].field_owners() and st['lhs'].field_owners()[0] in (('Memvid', 'toc'), ('Memvid', 'header'))]
+        for c in calls:
+            ctx.evaluations += 1
+            early = [st for st in stores if c.bb in fn.reachable(st['bb'])]
+            if early:
+                fo = early[0]['lhs'].field_owners()
+                ctx.bad('MPT-C25f', fn, '%s is stored before the call of %s, which can still reject the ticket: the store survives the rejection and the next commit persists it' % (
+                    '.'.join(f for o, f in fo), c.key.split('::')[-1]), line=early[0]['line'], sink='.'.join(f for o, f in fo), detail='state-stored-before-ticket-check:' + fo[-1][1])
+            else:
+                ctx.ok('MPT-C25f', fn, 'no persisted state is stored before %s' % c.key.split('::')[-1], line=c.line)
+    ctx.floor('MPT-C25f', n, 1, 'callers of the ticket entry points')
+
+
 def run(ctx):
+    _callers_leave_no_trace(ctx, ctx.facts())
     ctx.rule('GUARD-C25a', 'every state mutation in apply_ticket/apply_signed_ticket is dominated by the strict edge ticket.seq_no > ticket_ref.seq_no')
     ctx.rule('MPT-C25b', 'in apply_signed_ticket every mutation is dominated by verify_ticket_signature success, memory-id equality, binding presence; key from MEMVID_TICKET_PUBKEY')
     ctx.rule('FLOW-C25c', 'verify_ticket_signature receives the ticket fields in parameter order; stored fields are signed; message serialises every parameter')
